@@ -491,15 +491,8 @@ def countRanges : List Nat → Nat
   | [] => 0
   | g :: gs => 1 + countRangesGo g gs
 
-/-- `consecutive_gids` of `ClassDefSizeEstimator::new`: every covered glyph follows its predecessor -/
-def consecutiveGids : List Nat → Bool
-  | [] => true
-  | [_] => true
-  | a :: b :: rest => (a + 1 == b) && consecutiveGids (b :: rest)
-
 /-- `ClassDefSizeEstimator` for the `(glyph, class1)` list of the coverage table -/
 structure Ppf2Est where
-  consecutive : Bool
   gc : List (Nat × Nat)
 
 /-- the `BTreeSet` of glyphs of one class -/
@@ -509,11 +502,11 @@ def Ppf2Est.glyphsOf (e : Ppf2Est) (c : Nat) : List Nat :=
 /-- `increment_coverage_size(class)` -/
 def Ppf2Est.incCov (e : Ppf2Est) (c : Nat) : Nat := 2 * (e.glyphsOf c).length
 
-/-- `increment_class_def_size(class)`; class 0 has no entry in `num_ranges_per_class` -/
+/-- `increment_class_def_size(class)`: 6 bytes per range (the format 2 size, an upper bound of
+what the builder emits; since /repo 3404bb2 there is no "consecutive glyphs ⇒ format 1" shortcut);
+class 0 has no entry in `num_ranges_per_class` -/
 def Ppf2Est.incClassDef (e : Ppf2Est) (c : Nat) : Nat :=
-  let ranges := if c = 0 then 0 else countRanges (e.glyphsOf c)
-  let s := 6 * ranges
-  if e.consecutive then min s ((e.glyphsOf c).length * 2) else s
+  6 * (if c = 0 then 0 else countRanges (e.glyphsOf c))
 
 structure Ppf2Acc where
   accumulated : Nat
@@ -537,7 +530,7 @@ def ppf2Step (e : Ppf2Est) (recSize cd2Size : Nat) (st : Ppf2Acc) (idx : Nat) : 
 with their class-1 value in coverage order, `recSize = class2_count * (len(vf1) + len(vf2))`,
 `cd2Size` the byte size of class definition 2.  `none` = nothing to split. -/
 def ppf2SplitPoints (gc : List (Nat × Nat)) (class1Count recSize cd2Size : Nat) : Option (List Nat) :=
-  let e : Ppf2Est := ⟨consecutiveGids (gc.map (·.1)), gc⟩
+  let e : Ppf2Est := ⟨gc⟩
   let st := (List.range class1Count).foldl (ppf2Step e recSize cd2Size) ⟨16, 4, 4, []⟩
   if st.points.isEmpty then none else some (st.points.reverse ++ [class1Count])
 
